@@ -1,8 +1,10 @@
 import GitBugModel.Model.Cache
+import GitBugModel.Model.CacheStaged
 /-!
 # C11 — the cache always agrees with a cache rebuilt from the git data
 -/
 namespace GitBugModel.Props.C11
+section Coarse
 open GitBugModel.Cache
 
 variable {E : Type}
@@ -123,4 +125,298 @@ example : let s := [Act.new "a" 1, .merged "b" 2, .commit "a" 3, .evict "a", .re
     (s.excerpts "a", s.excerpts "b", s.index "b", s.loaded "b", s.repo "a") = (none, some 2, some 2, some 2, none) := by
   decide
 
+
+
+end Coarse
+
+/-! # The finer model: staging areas and the excerpt file (GitBugModel.CacheStaged) -/
+namespace Staged
+open GitBugModel.CacheStaged
+
+variable {Op : Type}
+
+/-- Coherence of the finer model: the excerpt file and the index say what the excerpt map says;
+a loaded instance's committed part is what its ref holds and its excerpt is made from all of its
+operations, staged ones included; the excerpt of an entity that is not loaded is what git holds. -/
+structure Coh (s : St Op) : Prop where
+  file : s.file = some s.excerpts
+  index : s.index = s.excerpts
+  loaded : ∀ id l, s.loaded id = some l → s.repo id = some l.committed ∧ s.excerpts id = some l.all
+  unloaded : ∀ id, s.loaded id = none → s.excerpts id = s.repo id
+  support : ∀ id, id ∉ s.ids → s.repo id = none
+
+/-- a quiescent point: nothing is staged -/
+def Quiescent (s : St Op) : Prop := ∀ id l, s.loaded id = some l → l.staged = []
+
+theorem upd_same {α : Type} (m : Map α) (k : String) (v : Option α) : upd m k v k = v := by simp [upd]
+theorem upd_other {α : Type} (m : Map α) (k x : String) (v : Option α) (h : x ≠ k) : upd m k v x = m x := by simp [upd, h]
+
+theorem coh_rebuild (repo : Map (List Op)) (ids : List String) (hs : ∀ id, id ∉ ids → repo id = none) :
+    Coh (rebuild repo ids) := by
+  refine ⟨rfl, rfl, ?_, ?_, hs⟩
+  · intro id l h
+    simp only [rebuild] at h ⊢
+    cases hr : repo id with
+    | none => simp [hr] at h
+    | some c =>
+      simp only [hr, Option.map_some, Option.some.injEq] at h
+      subst h
+      simp [Loaded.all]
+  · intro id h
+    simp only [rebuild] at h ⊢
+
+theorem quiescent_rebuild (repo : Map (List Op)) (ids : List String) : Quiescent (rebuild repo ids) := by
+  intro id l h
+  simp only [rebuild] at h
+  cases hr : repo id with
+  | none => simp [hr] at h
+  | some c =>
+    simp only [hr, Option.map_some, Option.some.injEq] at h
+    subst h; rfl
+
+/-- the actions that change one entity keep coherence when what they install is consistent -/
+theorem coh_install (s : St Op) (h : Coh s) (id : String) (r : Option (List Op)) (l : Option (Loaded Op))
+    (v : Option (List Op)) (ids' : List String)
+    (hl : ∀ l0, l = some l0 → r = some l0.committed ∧ v = some l0.all)
+    (hn : l = none → v = r)
+    (hids : ∀ x, x ∉ ids' → x ∉ s.ids) (hid : id ∉ ids' → r = none) :
+    Coh (install s id r l v ids') := by
+  obtain ⟨hf, hi, hlo, hun, hsup⟩ := h
+  refine ⟨rfl, ?_, ?_, ?_, ?_⟩
+  · simp only [install, publish]; rw [hi]
+  · intro x l0 hx
+    simp only [install, publish] at hx ⊢
+    by_cases hxi : x = id
+    · subst hxi
+      rw [upd_same] at hx
+      rw [upd_same, upd_same]
+      exact hl l0 hx
+    · rw [upd_other _ _ _ _ hxi] at hx
+      rw [upd_other _ _ _ _ hxi, upd_other _ _ _ _ hxi]
+      exact hlo x l0 hx
+  · intro x hx
+    simp only [install, publish] at hx ⊢
+    by_cases hxi : x = id
+    · subst hxi
+      rw [upd_same] at hx
+      rw [upd_same, upd_same]
+      exact hn hx
+    · rw [upd_other _ _ _ _ hxi] at hx
+      rw [upd_other _ _ _ _ hxi, upd_other _ _ _ _ hxi]
+      exact hun x hx
+  · intro x hx
+    simp only [install, publish] at hx ⊢
+    by_cases hxi : x = id
+    · subst hxi; rw [upd_same]; exact hid hx
+    · rw [upd_other _ _ _ _ hxi]; exact hsup x (hids x hx)
+
+/-- loaded instances are within the finite support -/
+theorem loaded_in_ids (s : St Op) (h : Coh s) (id : String) (l : Loaded Op) (hl : s.loaded id = some l) : id ∈ s.ids := by
+  apply Classical.byContradiction
+  intro hn
+  have := h.support id hn
+  rw [(h.loaded id l hl).1] at this
+  cases this
+
+/-- `dirty` is exact: it is false exactly at quiescent points -/
+theorem dirty_false_iff (s : St Op) (h : Coh s) : dirty s = false ↔ Quiescent s := by
+  constructor
+  · intro hd id l hl
+    have hin := loaded_in_ids s h id l hl
+    simp only [dirty, List.any_eq_false] at hd
+    have := hd id hin
+    simp only [hl, Bool.not_eq_true, Bool.not_eq_false', List.isEmpty_iff] at this
+    exact this
+  · intro hq
+    simp only [dirty, List.any_eq_false]
+    intro id _
+    cases hl : s.loaded id with
+    | none => simp
+    | some l => simp [hq id l hl]
+
+theorem coh_openFrom_file (s : St Op) (h : Coh s) (hq : Quiescent s) : Coh (openFrom s s.file) := by
+  rw [h.file]
+  simp only [openFrom]
+  split
+  · refine ⟨rfl, h.index, ?_, ?_, h.support⟩
+    · intro id l hl; cases hl
+    · intro id _
+      cases hl : s.loaded id with
+      | none => exact h.unloaded id hl
+      | some l =>
+        obtain ⟨h1, h2⟩ := h.loaded id l hl
+        rw [h1, h2, Loaded.all, hq id l hl, List.append_nil]
+  · exact coh_rebuild _ _ h.support
+
+/-- `coh_step`: every action keeps coherence — creating, editing without committing, committing,
+taking a merge result, removing, evicting, resolving, and closing + reopening *at any point*, with
+operations still staged or not (the repaired `Close` drops the excerpt file in the first case). -/
+theorem coh_step (s : St Op) (a : Act Op) (h : Coh s) : Coh (step s a) := by
+  cases a with
+  | new id ops =>
+    exact coh_install s h id _ _ _ _ (by intro l0 hl0; cases hl0; simp [Loaded.all]) (by intro hc; cases hc)
+      (by intro x hx hx'; exact hx (List.mem_cons_of_mem _ hx')) (by intro hc; exact absurd (List.mem_cons_self) hc)
+  | merged id ops =>
+    exact coh_install s h id _ _ _ _ (by intro l0 hl0; cases hl0; simp [Loaded.all]) (by intro hc; cases hc)
+      (by intro x hx hx'; exact hx (List.mem_cons_of_mem _ hx')) (by intro hc; exact absurd (List.mem_cons_self) hc)
+  | stage id op =>
+    simp only [step]
+    cases hl : s.loaded id with
+    | none => exact h
+    | some l =>
+      refine coh_install s h id _ _ _ _ ?_ (by intro hc; cases hc) (fun _ hx => hx) ?_
+      · intro l0 hl0; cases hl0
+        exact ⟨(h.loaded id l hl).1, by simp [Loaded.all]⟩
+      · intro hn; exact absurd (loaded_in_ids s h id l hl) hn
+  | commit id =>
+    simp only [step]
+    cases hl : s.loaded id with
+    | none => exact h
+    | some l =>
+      refine coh_install s h id _ _ _ _ ?_ (by intro hc; cases hc) (fun _ hx => hx) ?_
+      · intro l0 hl0; cases hl0; simp [Loaded.all]
+      · intro hn; exact absurd (loaded_in_ids s h id l hl) hn
+  | remove id =>
+    exact coh_install s h id _ _ _ _ (by intro l0 hl0; cases hl0) (fun _ => rfl) (fun _ hx => hx) (fun _ => rfl)
+  | evict id =>
+    simp only [step]
+    cases hl : s.loaded id with
+    | none => exact h
+    | some l =>
+      simp only
+      split
+      · rename_i he
+        refine ⟨h.file, h.index, ?_, ?_, h.support⟩
+        · intro x l0 hx
+          by_cases hxi : x = id
+          · subst hxi; simp [upd] at hx
+          · simp only [upd, hxi, if_false] at hx; exact h.loaded x l0 hx
+        · intro x hx
+          by_cases hxi : x = id
+          · subst hxi
+            obtain ⟨h1, h2⟩ := h.loaded x l hl
+            rw [h1, h2, Loaded.all, List.isEmpty_iff.mp he, List.append_nil]
+          · simp only [upd, hxi, if_false] at hx; exact h.unloaded x hx
+      · exact h
+  | resolve id =>
+    simp only [step]
+    cases hl : s.loaded id with
+    | some l => exact h
+    | none =>
+      refine ⟨h.file, h.index, ?_, ?_, ?_⟩
+      · intro x l0 hx
+        by_cases hxi : x = id
+        · subst hxi
+          simp only [upd, if_true] at hx
+          cases hr : s.repo x with
+          | none => simp [hr] at hx
+          | some c =>
+            simp only [hr, Option.map_some, Option.some.injEq] at hx
+            subst hx
+            exact ⟨rfl, by rw [h.unloaded x hl, hr]; simp [Loaded.all]⟩
+        · simp only [upd, hxi, if_false] at hx; exact h.loaded x l0 hx
+      · intro x hx
+        by_cases hxi : x = id
+        · subst hxi; exact h.unloaded x hl
+        · simp only [upd, hxi, if_false] at hx; exact h.unloaded x hx
+      · intro x hx
+        exact h.support x (fun hx' => hx (List.mem_cons_of_mem _ hx'))
+  | reopen =>
+    simp only [step, close]
+    cases hd : dirty s with
+    | true => simp only [if_true, openFrom]; exact coh_rebuild _ _ h.support
+    | false =>
+      simp only [Bool.false_eq_true, if_false]
+      exact coh_openFrom_file s h ((dirty_false_iff s h).mp hd)
+
+theorem coh_run (s : St Op) (as : List (Act Op)) (h : Coh s) : Coh (as.foldl step s) := by
+  induction as generalizing s with
+  | nil => exact h
+  | cons a t ih => exact ih _ (coh_step s a h)
+
+/-- after closing and reopening nothing is staged (whatever was staged is lost) -/
+theorem reopen_quiescent (s : St Op) : Quiescent (step s .reopen) := by
+  simp only [step, openFrom]
+  split
+  · split
+    · intro id l hl; cases hl
+    · exact quiescent_rebuild _ _
+  · exact quiescent_rebuild _ _
+
+/-- **C11** on the finer model: at a quiescent point of a coherent cache, the listing, the index
+content and every resolved entity are those of a cache rebuilt from the git data. -/
+theorem served_eq_rebuild (s : St Op) (h : Coh s) (hq : Quiescent s) :
+    (served s).excerpts = (served (rebuild s.repo s.ids : St Op)).excerpts ∧
+    (served s).index = (served (rebuild s.repo s.ids : St Op)).index ∧
+    (served s).resolved = (served (rebuild s.repo s.ids : St Op)).resolved := by
+  have hex : s.excerpts = s.repo := by
+    funext id
+    cases hl : s.loaded id with
+    | none => exact h.unloaded id hl
+    | some l =>
+      obtain ⟨h1, h2⟩ := h.loaded id l hl
+      rw [h1, h2, Loaded.all, hq id l hl, List.append_nil]
+  refine ⟨hex, by simp only [served, rebuild]; rw [h.index, hex], ?_⟩
+  funext id
+  simp only [served, rebuild]
+  cases hl : s.loaded id with
+  | none =>
+    cases hr : s.repo id <;> simp [Loaded.all]
+  | some l =>
+    obtain ⟨h1, _⟩ := h.loaded id l hl
+    simp [h1, Loaded.all, hq id l hl]
+
+/-- every session: starting from a rebuilt cache, after any sequence of actions that ends at a
+quiescent point — in particular after any close + reopen — the cache serves what a rebuild serves -/
+theorem session_coherent (repo : Map (List Op)) (ids : List String) (hs : ∀ id, id ∉ ids → repo id = none)
+    (as : List (Act Op)) (hq : Quiescent (as.foldl step (rebuild repo ids))) :
+    let s := as.foldl step (rebuild repo ids)
+    (served s).excerpts = s.repo ∧ (served s).index = s.repo ∧
+    (served s).resolved = (served (rebuild s.repo s.ids : St Op)).resolved := by
+  intro s
+  have h := coh_run (rebuild repo ids) as (coh_rebuild repo ids hs)
+  obtain ⟨h1, h2, h3⟩ := served_eq_rebuild s h hq
+  exact ⟨h1, h2, h3⟩
+
+/-- an edit is listed as soon as it is made, before it is committed -/
+theorem stage_visible (s : St Op) (id : String) (l : Loaded Op) (op : Op) (hl : s.loaded id = some l) :
+    (served (step s (.stage id op))).excerpts id = some (l.committed ++ (l.staged ++ [op])) ∧
+    (served (step s (.stage id op))).resolved id = some (l.committed ++ (l.staged ++ [op])) := by
+  simp [step, hl, install, publish, served, upd, Loaded.all]
+
+/-- a commit stores everything that was staged, in order, and leaves nothing staged -/
+theorem commit_stores (s : St Op) (id : String) (l : Loaded Op) (hl : s.loaded id = some l) :
+    (step s (.commit id)).repo id = some (l.committed ++ l.staged) ∧
+    (step s (.commit id)).loaded id = some ⟨l.committed ++ l.staged, []⟩ := by
+  simp [step, hl, install, publish, upd, Loaded.all]
+
+/-- later edits made through the cache build on the merged history -/
+theorem edit_after_merge (s : St Op) (id : String) (ops : List Op) (op : Op) :
+    (step (step (step s (.merged id ops)) (.stage id op)) (.commit id)).repo id = some (ops ++ [op]) := by
+  simp [step, install, publish, upd, Loaded.all]
+
+/-- The `Close` of the pinned tree kept the excerpt file whatever it described: an edit that was
+never committed, then close and reopen, and the cache lists a title git does not hold while nothing
+is staged any more (kernel-checked witness; the defect was found by the harness and repaired). -/
+theorem pinned_close_incoherent :
+    let s0 : St Nat := rebuild (fun id => if id = "b" then some [1] else none) ["b"]
+    let s1 := stepPinned (stepPinned s0 (.stage "b" 2)) .reopen
+    s1.excerpts "b" = some [1, 2] ∧ s1.repo "b" = some [1] ∧ s1.loaded "b" = none := by
+  decide
+
+/-- …while the repaired `Close` rebuilds -/
+example :
+    let s0 : St Nat := rebuild (fun id => if id = "b" then some [1] else none) ["b"]
+    let s1 := step (step s0 (.stage "b" 2)) .reopen
+    s1.excerpts "b" = some [1] ∧ s1.repo "b" = some [1] := by
+  decide
+
+/-! non-vacuity: a session with staged edits, a commit, a merge, an eviction and two reopens -/
+example :
+    let s := [Act.new "a" [1], .stage "a" 2, .stage "a" 3, .commit "a", .merged "b" [7], .stage "b" 8, .evict "b", .evict "a",
+              .reopen, .resolve "a", .stage "a" 4, .reopen].foldl step (rebuild (fun _ => (none : Option (List Nat))) [])
+    (s.excerpts "a", s.excerpts "b", s.repo "a", s.repo "b") = (some [1, 2, 3], some [7], some [1, 2, 3], some [7]) := by
+  decide
+
+end Staged
 end GitBugModel.Props.C11
